@@ -18,7 +18,7 @@ STATUS = os.path.join(HERE, "..", "coq", "gen", "consts_status.json")
 
 def read(rel):
     try:
-        with open(os.path.join(REPO, rel)) as f:
+        with open(os.path.join(REPO, rel), newline="") as f:   # like rustc: a lone CR does not end a line comment
             return f.read()
     except OSError:
         return ""
@@ -35,7 +35,7 @@ def rust_int(tok):
 
 
 def strip_comments(s):
-    return re.sub(r"//[^\n]*", "", s)
+    return re.sub(r"//[^\n]*", "", s)   # [^\n] also matches a lone CR, as in rustc
 
 
 found = {}
